@@ -157,7 +157,8 @@ let () =
             let toks = if raw = "-" then None
               else Some (List.filter_map (fun w -> if w = "" then None else (match tok_of_text w with Some t -> Some t | None -> None))
                            (String.split_on_char ',' raw)) in
-            let elem_ok = if get "elem" = "nonneg" then (fun q -> qle_bool { qnum = Z0; qden = XH } q) else (fun _ -> true) in
+            let elem_ok = if get "elem" = "nonneg" then (fun q -> qle_bool { qnum = Z0; qden = XH } q)
+              else if get "elem" = "pos" then (fun q -> not (qle_bool q { qnum = Z0; qden = XH })) else (fun _ -> true) in
             let (_, e) = vector_keyword (nat_of_int n) (on "presized") elem_ok toks in
             Printf.printf "%s initsafe=1 stepsafe=1\n" (verdict e)
           | "scripted" ->
